@@ -8,6 +8,7 @@
 package main
 
 import (
+	"strings"
 	"context"
 	"encoding/base64"
 	"fmt"
@@ -670,6 +671,28 @@ func (w *worker) runSharedController(i int, name string) {
 				c.Count("shared_controller_unexpected_keys", 1)
 			}
 		}
+	}
+	// the Composition is edited: the template of the same name now exposes the key under another
+	// name. A brand-new XR (on the new revision) gets exactly what the new revision declares.
+	comp := &unstructured.Unstructured{Object: world.GetObj(sim.Key{Group: "apiextensions.crossplane.io", Kind: "Composition", Name: "comp"})}
+	rs, _, _ := unstructured.NestedSlice(comp.Object, "spec", "resources")
+	rs[0].(map[string]any)["connectionDetails"] = []any{map[string]any{"name": "pw2", "type": "FromConnectionSecretKey", "fromConnectionSecretKey": "k"}}
+	_ = unstructured.SetNestedSlice(comp.Object, rs, "spec", "resources")
+	if err := world.Client("user").Update(ctx, comp); err != nil {
+		panic(err)
+	}
+	if err := xrk.ReconcileComposition(world, "comp"); err != nil {
+		panic(err)
+	}
+	world.MustSeed("user", xrk.XRObject("ex.org/v1", "XThing", "xr-d", "comp", map[string]any{"writeConnectionSecretToRef": map[string]any{"name": "xr-d-secret", "namespace": xrSecretNS}}))
+	_ = world.Client("provider").Create(ctx, mkSecret(xrSecretNS, "cd-xr-d-conn", connType, map[string]string{"k": "secret-of-xr-d"}, nil))
+	for k := 0; k < 3; k++ {
+		_, _, _ = xe.Reconcile("xr-d")
+	}
+	gotD := secretData(world.GetObj(sim.Key{Kind: "Secret", Namespace: xrSecretNS, Name: "xr-d-secret"}))
+	if ks := keysOf(gotD); strings.Join(ks, ",") != "pw2" {
+		c.Violate("xr-secret-keys-not-those-of-its-revision:pt", name, fmt.Sprintf("a new XR on the edited Composition (connection detail renamed password -> pw2) has secret keys %v, its revision declares [pw2]", ks),
+			map[string]any{"secret": gotD})
 	}
 	c.Eval(fmt.Sprintf("shared-controller|%d", i), true)
 	c.Count("shared_controller_cases", 1)
